@@ -923,6 +923,139 @@ def resample_cases(rng, tier):
     return [cs, cs2]
 
 
+# ---- callable STYLES x call MODES (signature classification in sampling_function / _check_func_out_arg)
+STYLES = ['pos', 'lam', 'kwargs', 'default', 'lam-default', 'dual', 'inplace', 'inplace-default', 'dual-kwargs',
+          'dual-default', 'obj', 'obj-out', 'obj-kwargs', 'vec-pos', 'vec-default', 'vec-kwargs']
+STYLE_MODES = ['element', 'mesh', 'mesh-out', 'dense', 'dense-out', 'points', 'points-out']
+TAKES_C = {'kwargs', 'default', 'lam-default', 'inplace-default', 'dual-kwargs', 'dual-default', 'obj-kwargs',
+           'vec-default', 'vec-kwargs'}
+
+
+def style_src(style, ex, d):
+    """Source defining `f`, a callable of the given signature style computing ex(x) [* c]."""
+    v, sc = ex.src(True), ex.src(False)
+    hdr = 'import numpy as np, odl\n'
+    if style == 'pos':
+        return hdr + 'def f(x):\n    return %s\n' % v
+    if style == 'lam':
+        return hdr + 'f = lambda x: %s\n' % v
+    if style == 'kwargs':          # the style documented in DiscretizedSpace.element
+        return hdr + 'def f(x, **kwargs):\n    c = kwargs.pop("c", 1.0)\n    return (%s) * c\n' % v
+    if style == 'default':
+        return hdr + 'def f(x, c=1.0):\n    return (%s) * c\n' % v
+    if style == 'lam-default':
+        return hdr + 'f = lambda x, c=1.0: (%s) * c\n' % v
+    if style == 'dual':
+        return hdr + ('def f(x, out=None):\n    r = %s\n    if out is None:\n        return r\n    out[:] = r\n' % v)
+    if style == 'inplace':
+        return hdr + 'def f(x, out):\n    out[:] = %s\n' % v
+    if style == 'inplace-default':
+        return hdr + 'def f(x, out, c=1.0):\n    out[:] = (%s) * c\n' % v
+    if style == 'dual-kwargs':
+        return hdr + ('def f(x, out=None, **kwargs):\n    r = (%s) * kwargs.pop("c", 1.0)\n    if out is None:\n'
+                      '        return r\n    out[:] = r\n' % v)
+    if style == 'dual-default':
+        return hdr + ('def f(x, out=None, c=1.0):\n    r = (%s) * c\n    if out is None:\n        return r\n'
+                      '    out[:] = r\n' % v)
+    if style == 'obj':
+        return hdr + 'class F(object):\n    def __call__(self, x):\n        return %s\nf = F()\n' % v
+    if style == 'obj-out':
+        return hdr + ('class F(object):\n    def __call__(self, x, out=None):\n        r = %s\n        if out is None:\n'
+                      '            return r\n        out[:] = r\nf = F()\n' % v)
+    if style == 'obj-kwargs':
+        return hdr + ('class F(object):\n    def __call__(self, x, **kwargs):\n        return (%s) * kwargs.pop("c", 1.0)\n'
+                      'f = F()\n' % v)
+    if style == 'vec-pos':         # not vectorised: evaluated point by point through the decorator
+        return hdr + '@odl.util.vectorize\ndef f(x):\n    return float(%s)\n' % sc
+    if style == 'vec-default':
+        return hdr + '@odl.util.vectorize\ndef f(x, c=1.0):\n    return float(%s) * c\n' % sc
+    if style == 'vec-kwargs':
+        return hdr + '@odl.util.vectorize\ndef f(x, **kwargs):\n    return float(%s) * kwargs.get("c", 1.0)\n' % sc
+    raise ValueError(style)
+
+
+STYLE_SRC = LAYOUT_SRC + '''
+def sample_style(space, f, mode, kw, out_layout):
+    """Values of f on the grid of `space` through one entry point: space.element(f, **kw), or
+    point_collocation(sampling_function(f, ...), X[, out=garbage], **kw) with X the sparse mesh, the DENSE
+    mesh (np.meshgrid(indexing='ij', sparse=False)) or the point array (d, N)."""
+    import numpy as np
+    from odl.discr.discr_utils import sampling_function, point_collocation
+    if mode == 'element':
+        return space.element(f, **kw).asarray()
+    func = sampling_function(f, space.domain, out_dtype=space.dtype)
+    kind = mode.split('-')[0]
+    if kind == 'mesh':
+        x = space.meshgrid
+    elif kind == 'dense':
+        x = tuple(np.meshgrid(*space.grid.coord_vectors, indexing='ij', sparse=False))
+    else:
+        x = space.points().T
+    shp = (space.size,) if kind == 'points' else space.shape
+    if mode.endswith('-out'):
+        out = alloc_out(shp, space.dtype, out_layout)
+        r = point_collocation(func, x, out=out, **kw)
+        assert r is out
+        res = np.array(out)
+    else:
+        res = np.asarray(point_collocation(func, x, **kw))
+    assert res.shape == shp, (res.shape, shp)
+    return res.reshape(space.shape)
+'''
+exec(STYLE_SRC)
+
+
+def style_cases(rng, tier):
+    cs = C.CaseSet('styles', ['C15.Syntax', 'C15.Model', 'C15.Call', 'C15.Corr'], 'scheck', 'scase')
+    reps = 2 if tier == 'quick' else 9
+    for rep in range(reps):
+        for si, style in enumerate(STYLES):
+            for mi, mode in enumerate(STYLE_MODES):
+                d = rng.choice([1, 2, 2, 3])
+                dtype = rng.choice(['float64', 'float64', 'float32'])
+                sp, spsrc = make_space(rng, d, dtype)
+                ret = ['full', 'broadcast', 'scalar'][(rep + si + mi) % 3]
+                coords = None if ret == 'full' else (rng.sample(range(d), rng.randint(0, d - 1)) if ret == 'broadcast' else [])
+                ex = gen_ex(rng, d, rng.choice([1, 2]), coords)
+                if ret == 'full':
+                    for kk in range(d):
+                        if kk not in ex.coords():
+                            ex = Ex('add', ex, Ex('coord', kk))
+                if ret == 'scalar' and style.startswith('inplace'):
+                    pass                      # out[:] = constant is fine
+                c = rng.choice([2.0, -1.0, 0.5]) if (style in TAKES_C and rng.random() < 0.7) else 1.0
+                kw = {'c': c} if c != 1.0 else {}
+                src = style_src(style, ex, d)
+                out_layout = rng.choice(LAYOUTS) if mode.endswith('-out') else 'C'
+                env = {}
+                err = None
+                with warnings.catch_warnings():
+                    warnings.simplefilter('ignore')
+                    try:
+                        exec(src, env)
+                        arr = sample_style(sp, env['f'], mode, kw, out_layout)
+                    except Exception as e:
+                        arr, err = np.zeros(0), '%s: %s' % (type(e).__name__, str(e)[:200])
+                arr, err2 = _finite_or_empty(arr)
+                flat = np.asarray(arr).ravel()
+                exc = Ex('mul', ex, Ex('const', c))
+                term = ('{| s_cvs := %s; s_re := %s; s_im := FConst 0; s_cplx := false; s_out_re := %s; s_out_im := [] |}'
+                        % (C.qss([cv.tolist() for cv in sp.grid.coord_vectors]), exc.coq(),
+                           C.qs([float(v) for v in flat.tolist()])))
+                desc = {'family': 'styles', 'style': style, 'mode': mode, 'returns': ret, 'kwargs': kw,
+                        'out_layout': out_layout, 'space': spsrc, 'callable': src, 'error': err or err2,
+                        'scalar_expr': '(%s) * %r' % (ex.src(False, 'p'), c), 'd': d}
+                cs.add(term, desc, ('style', style, mode, ret, c, spsrc, src, out_layout))
+    return cs
+
+
+def _style_snippet(desc):
+    return ('import numpy as np, odl, warnings\nwarnings.simplefilter("ignore")\n' + STYLE_SRC + desc['space']
+            + desc['callable'] + 'got = sample_style(space, f, %r, %r, %r)\n' % (desc['mode'], desc['kwargs'], desc['out_layout'])
+            + 'expected = np.array([%s for p in space.points()]).reshape(space.shape).astype(space.dtype)\n'
+              'observed = got\nok = got.shape == space.shape and bool(np.all(got == expected))\n' % desc['scalar_expr'])
+
+
 def shape_cases(rng, tier):
     """Calling conventions by SHAPE: every factory called with np.zeros(shape) (all points at the first node)
     on a d-dimensional grid -> result shape, scalar, or ValueError.  Exhaustive over small shapes."""
@@ -955,7 +1088,7 @@ def shape_cases(rng, tier):
 
 def correspondence(rng, tier):
     return ([interp_cases(rng, tier), sampling_cases(rng, tier), tensor_sampling_cases(rng, tier),
-             history_cases(rng, tier), shape_cases(rng, tier)] + resample_cases(rng, tier))
+             history_cases(rng, tier), shape_cases(rng, tier), style_cases(rng, tier)] + resample_cases(rng, tier))
 
 
 # ------------------------------------------------------------------- probes
@@ -1399,6 +1532,9 @@ def search(rng, broken):
         if desc.get('family') == 'sampling':
             snip = _sampling_snippet(desc)
             key = 'sampling-%s-%s-%s' % (desc['flavour'], desc['dtype'], desc['mode'])
+        elif desc.get('family') == 'styles':
+            snip = _style_snippet(desc)
+            key = 'sampling-style-%s-%s' % (desc['style'], desc['mode'])
         elif desc.get('family') == 'history':
             snip = desc.get('replay')
             if snip is None:          # stored with the first step of the same history
